@@ -306,6 +306,7 @@ func (f *Facts) Write(path string) error {
 	fmt.Fprintf(&b, "/- GENERATED by harness/%s facts from the repository's current source. Do not edit. -/\n", strings.ToLower(f.Prop))
 	fmt.Fprintf(&b, "namespace TdModel.Facts.%s\n\n", f.Prop)
 	fmt.Fprintf(&b, "/-- Iteration bound of translated loops (`hc.TranslateFuncs`). -/\ndef LoopFuel : Nat := 128\n\n")
+	fmt.Fprintf(&b, "/-- Translation of Go `a | b`; exact when both operands are non-negative (theorems about translated code that uses it must carry those hypotheses). -/\ndef orNonneg (a b : Int) : Int := Int.ofNat (a.toNat ||| b.toNat)\n\n")
 	for _, l := range f.lines {
 		b.WriteString(l)
 		b.WriteString("\n")
